@@ -64,7 +64,7 @@ StrXformDeviations(e) ==
               o |-> WithFault(Out("err", {-9999}, {<<>>}, Untouched(e.pre)), "r", {e.d + e.dmax})]}
        ELSE IF e.pre[e.d + e.dmax] = 0
        THEN {[name |-> "Dev_justify_term_at_dmax", props |-> {"C02", "C05"}, o |-> x] :
-                x \in JustifyOutcomes([e EXCEPT !.dmax = e.dmax + 1])}
+                x \in JustifyOutcomes([e EXCEPT !.dmax = e.dmax + 1, !.dbos = IF e.dbos = UNK THEN UNK ELSE Max(e.dbos, e.dmax + 1)])}     \* (a known object size that ends in front of that terminator does not stop the scan either)
        ELSE {}
   ELSE {}
 =============================================================================
